@@ -370,3 +370,39 @@ reg(Prop("C16", "Move picker yields every pseudo-legal move exactly once, hash m
                       "pairwise distinct (C01/C05), base + 1 + generated moves <= StoreSize (store_ok, DESIGN O2)",
                       "hash move encodings are the 2^15 values of the property's domain (bit 15 clear)"],
          design_ref="5/C16"))
+
+def _c11_classify(w):
+    """F6: FromFEN rejects a printed halfmove clock above 100 (recorded input class: stream c11rt,
+    verdict `0 1 <clock>` = print->parse rejected, clock > 100). Anything else is a violation."""
+    if w.get("stream") != "c11rt":
+        return None
+    v = w.get("verdict", "").split()
+    if len(v) == 3 and v[0] == "0" and v[1] == "1":
+        try:
+            clock = int(v[2], 16)
+        except ValueError:
+            return None
+        if clock > 100 and any(k.get("property") == "C11" and k.get("id") == "clock-range" for k in V.known_findings()[0]):
+            return "id=clock-range"
+    return None
+
+
+reg(Prop("C11", "FEN parsing and printing are inverse and robust", "Properties/C11.v",
+         [StreamCfg("c11rt", 4000, 100000, judge="judge_c11rt",
+                    rule="positions of G1/G2/G4 (posgen) and hand-made maximal promoted material, clock overwritten with 0..150 "
+                         "and boundary values, fullmove number with boundary values up to 2^63-1; FEN() then FromFEN, all fields "
+                         "compared through the snapshot hook; distinct by FEN text"),
+          StreamCfg("c11str", 12000, 600000, judge="judge_c11str",
+                    rule="byte strings: every prefix of canonical FENs, byte replace/flip/delete/insert, missing/duplicated/swapped "
+                         "fields, separators, malformed ranks, overflowing numbers, non-ASCII, random bytes; FromFEN under recover "
+                         "and epd.Parse on the string + 5 byte suffix; distinct by input"),
+          StreamCfg("c11uci", 3000, 60000, judge="judge_c11uci",
+                    rule="two `position` commands on a fresh in-process uci.Driver followed by `fen`: accepted, parser-rejected, "
+                         "gate-rejected (piece counts), startpos, too few arguments; non-trivial = second command is a fen/startpos command")],
+         trusted=["hooks board/export_verif.go (VerifSnapshot/VerifRestore/VerifFullMoves), uci/export_verif.go (VerifBoard)",
+                  "strings.Fields / strings.Join / bufio.Scanner of the UCI input path are outside the model (the stream hands the "
+                  "tokens to both sides and checks that strings.Fields returns them unchanged)",
+                  "fmt %d / %c and strconv.Itoa are modelled by itoa / square_string (tied by the c11rt stream)"],
+         assumptions=["round trip: halfmove clock 0..100 (F6: the parser's range, pinned by the test-suite), fullmove number 1..2^63-1",
+                      "wf: the three encodings of the placement agree (no chess validity needed)"],
+         classify=_c11_classify, design_ref="5/C11"))
